@@ -111,7 +111,7 @@ async def request(
                 if header:
                     retry_after = _parse_retry_after(header)  # the new style
                 elif e.details and e.details.get("retryAfterSeconds"):
-                    retry_after = int(e.details["retryAfterSeconds"])  # the old style
+                    retry_after = math.ceil(float(e.details["retryAfterSeconds"]))  # the old style
                 else:
                     retry_after = None
 
@@ -145,7 +145,7 @@ def _parse_retry_after(value: str) -> int | None:
     Unparsable values are ignored (as if there was no header) instead of failing the request.
     """
     try:
-        return int(float(value))
+        return math.ceil(float(value))  # never earlier than requested
     except (ValueError, OverflowError):  # incl. "inf"
         pass
     try:
